@@ -250,7 +250,7 @@ one (int si, int ni, int fill)
   char out[CRYPT_GENSALT_OUTPUT_SIZE], out2[CRYPT_GENSALT_OUTPUT_SIZE];
   char sig[128];
   for (int i = 0; i < 257; i++)
-    rb[i] = fill == 'Z' ? 0 : vh_fillP ((size_t) i + 3);
+    rb[i] = fill == 'Z' ? 0 : fill == 'P' ? vh_fillP ((size_t) i + 3) : fill == 'F' ? 0xff : (unsigned char) (vh_hash (&i, sizeof i, (uint64_t) fill) >> 13);
   snprintf (cj, sizeof cj, "{\"prefix\":%s,\"nrbytes\":%d,\"fill\":\"%c\",\"replay\":\"%d:%d:%c\"", vh_jstr (S->prefix),
             nrb, fill, si, ni, fill);
   errno = 0;
@@ -437,11 +437,13 @@ main (int argc, char **argv)
       return 0;
     }
   uint64_t idx = 0;
+  static const char fills[] = "ZPFabcde";
+  int nf = vh_thorough ? 8 : 2;
   for (int si = 0; si < NSM; si++)
     for (int ni = 0; ni < NNRB; ni++)
-      for (int f = 0; f < 2; f++, idx++)
+      for (int f = 0; f < nf; f++, idx++)
         if (vh_mine (idx))
-          one (si, ni, f ? 'P' : 'Z');
+          one (si, ni, fills[f]);
   if (vh_shard == 0)
     auto_entropy ();
   vh_done ();
